@@ -211,7 +211,8 @@ namespace c10
   {
     // most cases small, a few up to the tier's limit (5e4 quick / 1e6 thorough)
     const double u = c.rng.unit();
-    if(c.thorough()) return u < 0.55 ? 3000 : u < 0.90 ? 30000 : u < 0.985 ? 200000 : 1000000;
+    if(const char* e = std::getenv("C10_CAP")) return Idx(std::strtoull(e, nullptr, 10));   // (debug aid)
+    if(c.thorough()) return u < 0.60 ? 3000 : u < 0.93 ? 30000 : u < 0.99 ? 200000 : 1000000;
     return u < 0.60 ? 1500 : u < 0.92 ? 10000 : 50000;
   }
   inline const char* cells_bucket(Idx n) { return n <= 1 ? "cells:1" : n <= 8 ? "cells:2-8" : n <= 64 ? "cells:9-64" : n <= 1000 ? "cells:65-1000" : "cells:1001+"; }
@@ -398,6 +399,8 @@ namespace c10
     // in first-occurrence numbering, (C) as (B) with randomly numbered and randomly oriented edges / faces
     const int route = int(r.below(3));
     c.tag(route == 0 ? "topology:deducted" : route == 1 ? "topology:explicit" : "topology:explicit_random");
+    c.desc = vh::J().raw("mesh", ms.describe()).raw("variant", vh::jarr(ms.tags)).kv("topology", route == 0 ? "deduct_topology_from_top" : route == 1 ? "explicit" : "explicit, random edge/face numbering and orientation")
+      .kv("cell_cap", (unsigned long)cap).kv("bare_refinery", bare).str();
     std::unique_ptr<typename Ty<Shape_>::Mesh> mesh;
     if(route == 0) mesh = vm::build<Shape_>(ms);
     else { FullFactory<Shape_> ff(ms, route == 2 ? &r : nullptr); mesh = ff.make_unique(); }
